@@ -23,8 +23,10 @@ VARIABLES tid,       \* which trace
           inSrc,     \* children inside source.__anext__
           srcClosed, \* aclose() calls seen by the source
           fin,       \* fin[c]: child ended, was closed or cancelled
-          lastF      \* lastF[c]: last item fetched through child c (0 = none)
-vars == <<tid, l, recv, fetched, inSrc, srcClosed, fin, lastF>>
+          lastF,     \* lastF[c]: last item fetched through child c (0 = none)
+          visit      \* visit[c]: "in" while c is inside the source and got nothing so far, "got" once it fetched there,
+                     \*           "empty" after it left the source without an item (it was told the end), "-" otherwise
+vars == <<tid, l, recv, fetched, inSrc, srcClosed, fin, lastF, visit>>
 
 Cfg == Traces[tid].cfg
 Ev == Traces[tid].ev
@@ -37,6 +39,7 @@ Init == /\ tid \in 1..NT
         /\ fetched = 0 /\ inSrc = {} /\ srcClosed = 0
         /\ fin = [c \in 1..Traces[tid].cfg.n |-> FALSE]
         /\ lastF = [c \in 1..Traces[tid].cfg.n |-> 0]
+        /\ visit = [c \in 1..Traces[tid].cfg.n |-> "-"]
         /\ TLCSet(Reg(tid), 0)
 
 E == Ev[l + 1]
@@ -48,7 +51,7 @@ Consume == /\ l' = l + 1 /\ tid' = tid /\ TLCSet(Reg(tid), l + 1)
 Recv == /\ Is("recv")
         /\ ~fin[E.c] /\ E.x = recv[E.c] + 1 /\ E.x <= fetched
         /\ recv' = [recv EXCEPT ![E.c] = E.x]
-        /\ UNCHANGED <<fetched, inSrc, srcClosed, fin, lastF>>
+        /\ UNCHANGED <<fetched, inSrc, srcClosed, fin, lastF, visit>>
         /\ Consume
 
 \* the source hands out item x: each item once, in order, to somebody inside it
@@ -56,6 +59,7 @@ Fetch == /\ Is("fetch")
          /\ E.x = fetched + 1 /\ E.x <= Cfg.len /\ E.c \in inSrc
          /\ fetched' = E.x
          /\ lastF' = [lastF EXCEPT ![E.c] = E.x]
+         /\ visit' = [visit EXCEPT ![E.c] = "got"]
          /\ UNCHANGED <<recv, inSrc, srcClosed, fin>>
          /\ Consume
 
@@ -69,26 +73,30 @@ Enter == /\ Is("enter")
          /\ srcClosed = 0 /\ ~fin[E.c]
          /\ recv[E.c] = fetched
          /\ inSrc' = inSrc \cup {E.c}
+         /\ visit' = [visit EXCEPT ![E.c] = "in"]
          /\ UNCHANGED <<recv, fetched, srcClosed, fin, lastF>>
          /\ Consume
 Leave == /\ Is("leave")
          /\ E.c \in inSrc
          /\ inSrc' = inSrc \ {E.c}
+         /\ visit' = [visit EXCEPT ![E.c] = IF @ = "in" THEN "empty" ELSE "-"]
          /\ UNCHANGED <<recv, fetched, srcClosed, fin, lastF>>
          /\ Consume
 
-\* a child that reports exhaustion has delivered every source item
+\* a child that reports exhaustion has delivered every source item -- and has just been told the end by the
+\* source itself (like every itertools.tee child, it asks; nobody else's word is taken for it)
 EndC == /\ Is("end")
         /\ ~fin[E.c] /\ recv[E.c] = Cfg.len /\ fetched = Cfg.len
+        /\ visit[E.c] = "empty"
         /\ fin' = [fin EXCEPT ![E.c] = TRUE]
-        /\ UNCHANGED <<recv, fetched, inSrc, srcClosed, lastF>>
+        /\ UNCHANGED <<recv, fetched, inSrc, srcClosed, lastF, visit>>
         /\ Consume
 
 \* closing or cancelling a child is always possible and never fails
 Closed == /\ (Is("closed") \/ Is("cancelled"))
           /\ ~fin[E.c]
           /\ fin' = [fin EXCEPT ![E.c] = TRUE]
-          /\ UNCHANGED <<recv, fetched, inSrc, srcClosed, lastF>>
+          /\ UNCHANGED <<recv, fetched, inSrc, srcClosed, lastF, visit>>
           /\ Consume
 
 \* the source raised while child c pulled it: that very exception reaches c's consumer
@@ -96,21 +104,21 @@ Closed == /\ (Is("closed") \/ Is("cancelled"))
 Failed == /\ Is("failed")
           /\ ~fin[E.c] /\ E.same
           /\ fin' = [fin EXCEPT ![E.c] = TRUE]
-          /\ UNCHANGED <<recv, fetched, inSrc, srcClosed, lastF>>
+          /\ UNCHANGED <<recv, fetched, inSrc, srcClosed, lastF, visit>>
           /\ Consume
 
 \* the source is closed exactly when the last child is done: once, and not before
 SrcClose == /\ Is("srcclose")
             /\ srcClosed = 0 /\ \A c \in Child : fin[c]
             /\ srcClosed' = 1
-            /\ UNCHANGED <<recv, fetched, inSrc, fin, lastF>>
+            /\ UNCHANGED <<recv, fetched, inSrc, fin, lastF, visit>>
             /\ Consume
 
 \* at rest (nobody is running): the source is closed iff every child is done
 Quiesce == /\ Is("quiesce")
            /\ inSrc = {}
            /\ IF Cfg.closable THEN (\A c \in Child : fin[c]) <=> srcClosed = 1 ELSE srcClosed = 0
-           /\ UNCHANGED <<recv, fetched, inSrc, srcClosed, fin, lastF>>
+           /\ UNCHANGED <<recv, fetched, inSrc, srcClosed, fin, lastF, visit>>
            /\ Consume
 
 \* retention: after garbage collection only items some live child has not yielded yet
@@ -120,7 +128,7 @@ Census == /\ Is("census")
                 LET x == E.alive[j] IN
                 \/ \E d \in Child : ~fin[d] /\ recv[d] < x
                 \/ \E d \in Child : lastF[d] = x
-          /\ UNCHANGED <<recv, fetched, inSrc, srcClosed, fin, lastF>>
+          /\ UNCHANGED <<recv, fetched, inSrc, srcClosed, fin, lastF, visit>>
           /\ Consume
 
 Next == Recv \/ Fetch \/ Enter \/ Leave \/ EndC \/ Closed \/ Failed \/ SrcClose \/ Quiesce \/ Census
